@@ -18,6 +18,14 @@ CLAIMED = {
             "Generated-input search: valid claims-sets of both profiles (all optional subsets, hash sizes, 1..4 components) are signed with every algorithm go-cose supports; the token is parsed by the harness's own CBOR reader (tag 18, 4-array, protected = {1: alg}, payload byte-identical to the validated encoding), verified by the harness's own crypto/* based verifier, then decoded and verified by the library and compared claim for claim. Exploration: inputs are unbounded.",
             "Trusts crypto/ecdsa, ed25519 and rsa-PSS from the Go standard library and the harness's Sig_structure builder.",
             "DESIGN.md §4 C03"),
+    "C05": ("complete enumeration of tiny inputs, every-node x every-mutation sweeps, truncation/substitution sweeps, rapid multi-mutants, native go fuzzing (thorough); oracle = recover() around decode + full use of the result",
+            "Generated-input search over byte strings for 35 decoding entry points (COSE evidence, claims CBOR/JSON with and without validation, the per-type unmarshal methods incl. two extension types, populate helpers with flat/embedded/interface-embedded destinations): ALL strings of length <= 3 and a structured 4-byte family, every node of 10 base documents replaced by ~50 other items or structurally mutated, every truncation and header-byte substitution of all vectors, tens of thousands of random multi-mutants; whatever decodes without error is then validated, read through every getter, re-encoded and verified with 10 kinds of key. Any panic (or runtime fatal error) is a violation. Exploration: the input space is all byte strings.",
+            "Only panics are judged, not verdicts. Malformed Go key objects (wrong-length ed25519 keys) are outside 'any key'.",
+            "DESIGN.md §4 C05"),
+    "C06": ("enumerated header bombs / nesting / oversize documents and rapid mutants measured (TotalAlloc delta, wall time) in an address-space-limited single-goroutine worker process; native fuzzing with the allocation oracle in the target (thorough)",
+            "Generated-input search over inputs <= 64 KiB: every major type x additional-info x declared length x 0..16 following bytes at 20 structural positions, nesting to depth 32000 (CBOR) / 65536 (JSON), long strings, many-key maps; each call's allocation must stay below 1 MiB + 1 KiB per input byte and return within 5 s; worker death by out-of-memory is attributed to the in-flight input. Exploration.",
+            "TotalAlloc is process-wide: the worker runs one goroutine, GC workers do not allocate heap objects. The wall bound is only reported after 4 measurements (3 in fresh processes).",
+            "DESIGN.md §4 C06"),
     "C08": ("rapid: C01's valid and invalid claims-sets through all validating entry points, differential against Validate() and the non-validating sibling",
             "Generated-input search: each generated claims-set (0..4 deviating claims) goes through SetClaims, validate-and-encode CBOR/JSON, ValidateAndSign and the decode-and-validate variants (CBOR, JSON, COSE); a gate must fail iff Validate() fails (and iff the model says invalid), emit/attach nothing on failure, and equal its non-validating sibling on success.",
             "Trusts the profile model for the iff direction; bytes for decode gates come from the library's non-validating encoder or the independent encoder.",
@@ -46,6 +54,10 @@ CLAIMED = {
             "Every uint16 value is pushed through LifeCycleToState, IsValid, ValidateSecurityLifeCycle, both profiles' setter/getter (setter and struct-literal routes) and CBOR decode-and-validate, compared with a table oracle; state names compared with the specified strings. The input space is finite and enumerated completely (exhaustive: true).",
             "Trusts the seven-range table written from the property statement.",
             "DESIGN.md §4 C14"),
+    "C15": ("rapid over a hand-declared shape family with hand-written expectations + enumeration of reflect.StructOf sizes around header boundaries + extension-profile round trips; independent CBOR reader, plain-codec differential",
+            "Generated-input search: eight struct shapes (flat, 1- and 2-level embedded, embedded interface with pointer/nil, empty, all-optional) x random values x optional subsets; every entry count 0..257 and 65535/65536(/65537/70000) of synthetic structs; extension profiles on both base profiles. The serialised map must equal the hand-written union in declaration order with a correct header, populate must reproduce the value, match the plain marshaller for shapes without embedding, be byte-stable, and fail on a missing non-optional or duplicate key.",
+            "Shapes stay inside the claims convention (see DESIGN.md S-notes: no embedded pointer-to-struct, no empty non-nil slices under omitempty).",
+            "DESIGN.md §4 C15"),
     "C19": ("rapid state machine over one Evidence with injected signer faults, against a reference model of the envelope/claims binding",
             "Generated histories (1..30 steps) of SetClaims / Sign / ValidateAndSign / UnmarshalCOSE / Verify with faulty signers (error, empty signature, junk, unsupported algorithm) and hostile tokens at arbitrary positions; after every step the model's invariants are checked (failed operation returns nothing; after failed sign every Verify fails; Verify success implies claims equal the decoding of the covered payload; a later good sign succeeds).",
             "Trusts the independent splitter for 'the payload the signature covers' and by-construction knowledge of which key verifies which token.",
